@@ -46,8 +46,14 @@ pub struct GenOpts {
     pub max_w: u8,
 }
 
+thread_local! {
+    /// when set, gen_model builds a LARGE model (hundreds of entries over a wider alphabet)
+    pub static BIG: std::cell::Cell<bool> = std::cell::Cell::new(false);
+}
+
 pub fn gen_model(rng: &mut StdRng, o: &GenOpts) -> (MModel, Vec<char>) {
-    let na = rng.gen_range(2..=4);
+    let big = BIG.with(|b| b.get());
+    let na = if big { rng.gen_range(5..=8) } else { rng.gen_range(2..=4) };
     let mut alpha: Vec<char> = POOL.choose_multiple(rng, na).cloned().collect();
     if alpha.iter().all(|c| *c == ' ') {
         alpha.push('a');
@@ -59,14 +65,15 @@ pub fn gen_model(rng: &mut StdRng, o: &GenOpts) -> (MModel, Vec<char>) {
     };
     let cw = pick_w(rng);
     let tw = pick_w(rng);
-    let base: Vec<char> = rand_text(rng, &alpha, 30, 30).chars().collect();
+    let blen = if big { 400 } else { 30 };
+    let base: Vec<char> = rand_text(rng, &alpha, blen, blen).chars().collect();
     let base_types: Vec<u8> = base
         .iter()
         .map(|&c| vaporetto::CharacterType::get_type(c) as u8)
         .collect();
     // character n-grams (unique), with suffix chains
     let mut cset = BTreeSet::new();
-    for _ in 0..rng.gen_range(0..10) {
+    for _ in 0..(if big { rng.gen_range(150..400) } else { rng.gen_range(0..10) }) {
         let g = substr(rng, &base, 1, (2 * cw as usize).min(5));
         if rng.gen_bool(0.4) {
             let cs: Vec<char> = g.chars().collect();
@@ -87,7 +94,7 @@ pub fn gen_model(rng: &mut StdRng, o: &GenOpts) -> (MModel, Vec<char>) {
         })
         .collect();
     let mut tset = BTreeSet::new();
-    for _ in 0..rng.gen_range(0..8) {
+    for _ in 0..(if big { rng.gen_range(20..80) } else { rng.gen_range(0..8) }) {
         let len = rng.gen_range(1..=(2 * tw as usize).min(4));
         let st = rng.gen_range(0..=base_types.len() - len);
         let g = base_types[st..st + len].to_vec();
@@ -106,7 +113,7 @@ pub fn gen_model(rng: &mut StdRng, o: &GenOpts) -> (MModel, Vec<char>) {
         })
         .collect();
     let mut dset = BTreeSet::new();
-    for _ in 0..rng.gen_range(0..6) {
+    for _ in 0..(if big { rng.gen_range(50..300) } else { rng.gen_range(0..6) }) {
         let hi = if rng.gen_bool(0.15) { 14 } else { 5 };
         dset.insert(substr(rng, &base, 1, hi));
     }
@@ -232,7 +239,9 @@ pub fn record_predict(kind: &str, n_models: usize, seed: u64, out: &mut dyn Writ
     let mut rng = StdRng::seed_from_u64(seed);
     let with_tags = kind == "tags";
     let mut id = 0u64;
-    for _ in 0..n_models {
+    for mi in 0..n_models {
+        // every 40th model is large: hundreds of n-grams and words (automaton with many states, long suffix chains)
+        BIG.with(|b| b.set(mi % 40 == 39));
         let (mm, alpha) = gen_model(
             &mut rng,
             &GenOpts {
@@ -240,6 +249,7 @@ pub fn record_predict(kind: &str, n_models: usize, seed: u64, out: &mut dyn Writ
                 max_w: 12,
             },
         );
+        BIG.with(|b| b.set(false));
         let mj = mmodel_to_json(&mm);
         let pred = match predictor_from_json(&json!({"model": mj, "tags": with_tags, "store": with_tags})) {
             Ok(p) => p,
